@@ -19,7 +19,7 @@ import (
 // filterType draws a type for filter and range tests: 1..maxAttrs attributes
 // over all kinds plus optionally a to-one and a to-many relationship.
 func filterType(t *rapid.T, maxAttrs int, withRels bool) gen.TypeSpec {
-	ts := gen.TypeSpec{Name: "t", IDPos: rapid.IntRange(0, 3).Draw(t, "idpos")}
+	ts := gen.TypeSpec{Name: "t", IDPos: rapid.IntRange(0, 3).Draw(t, "idpos"), EmbedID: rapid.IntRange(0, 4).Draw(t, "embedid") == 0}
 	n := rapid.IntRange(1, maxAttrs).Draw(t, "nattrs")
 
 	for i := 0; i < n; i++ {
